@@ -8,6 +8,7 @@ Instruction::exec dispatch).  They are never counted as discharged obligations.
 """
 import math
 import random
+import re
 import struct
 
 M64 = 1 << 64
@@ -125,6 +126,16 @@ FLOAT_GRID = [0.0, -0.0, 1.0, -1.0, 0.5, 2.0, 3.0, -2.5, 1e308, -1e308, 5e-324, 
               -math.inf, math.nan, 0.1, 0.2, 1e16, 123456.789, -7.0]
 
 
+class Twin:
+    """expectation `behaves like case <other>` (differential; C04): same status and same value/error;
+    `early_ok`: this (literal-constant) side may instead report the twin's... any exec error at parse time"""
+    def __init__(self, other):
+        self.other = other
+
+    def __repr__(self):
+        return f"Twin({self.other!r})"
+
+
 class Case:
     __slots__ = ("id", "prog", "vars", "mode", "expect", "what")
 
@@ -233,6 +244,24 @@ def same(exp, got):
     if isinstance(exp, (list, tuple)):
         return type(exp) == type(got) and len(exp) == len(got) and all(same(a, b) for a, b in zip(exp, got))
     return exp == got
+
+
+EXEC_ERRORS = (E_ZDIV, E_ZMOD, E_SHIFT, E_NEGEXP, E_INDEX, E_NEGLEN)
+
+
+def judge_twin(case, mine, other):
+    """literal-constant program (mine) vs hidden-constant twin (other)"""
+    (st, tx), (so, to) = mine, other
+    if st == "panic" or so == "panic":
+        return f"panic: literal side {st}: {tx} / hidden side {so}: {to}"
+    if st == "ok" and so == "ok":
+        a, b = parse_value(tx), parse_value(to)
+        return None if (same(a, b) or tx == to) else f"literal constants give {tx}, hidden constants give {to}"
+    if st == "parse_error" and any(e in tx for e in EXEC_ERRORS):
+        return None   # permitted: an operation on constants that fails whenever evaluated, reported early
+    if st == "exec_error" and so == "exec_error":
+        return None if tx == to else f"literal constants fail with `{tx}`, hidden constants with `{to}`"
+    return f"literal constants: {st}: {tx}; hidden constants: {so}: {to}"
 
 
 def judge(case, status, text):
@@ -577,6 +606,15 @@ def fam_order(tier, seed, extra=()):
     out.append(Case("order/repeat", PRE + "r := [t(7); t(2)]; (r, *log)", ([7, 7], 72)))
     out.append(Case("order/index", PRE + "pickarr := (k: int) -> [int] { log = *log * 10 + k; return [5, 6, 7] }; "
                     "r := pickarr(1)[t(2)]; (r, *log)", (7, 12)))
+    out.append(Case("order/reduce", PRE + "add := (acc: int, cur: int) -> int { return acc + cur }; "
+                    "pickf := (k: int) -> (int, int) -> int { log = *log * 10 + k; return add }; "
+                    "pickit := (k: int) -> () -> (bool, int) { log = *log * 10 + k; return [1, 2, 3]~ }; "
+                    "r := pickit(1) $t(2) pickf(3); (r, *log)", (8, 123)))
+    out.append(Case("order/struct3", PRE + "r := struct{c := t(1), a := t(2), b := t(3)}; *log", 123))
+    out.append(Case("order/nested_array", PRE + "r := [[t(1), t(2)], [t(3)], [t(4); t(1)]]; *log", 12341))
+    out.append(Case("order/call_nested", PRE + "g := (a: int, b: int) -> int { return a - b }; r := g(g(t(1), t(2)), g(t(3), t(4))); (r, *log)", (0, 1234)))
+    out.append(Case("order/map_filter_fn", PRE + "arr := [1, 2, 3]~ @ (x: int) -> int { return t(x) } $]; (arr, *log)", ([1, 2, 3], 123)))
+    out.append(Case("order/compound_rhs_then_read", PRE + "c := mut 1; setc := (k: int) -> int { c = 10; return t(k) }; r := (c += setc(5)); (r, *c, *log)", (15, 15, 5)))
     # only the chosen branch
     out.append(Case("order/if/true", PRE + "r := if tb(1, true) t(2) else t(3); (r, *log)", (2, 12)))
     out.append(Case("order/if/false", PRE + "r := if tb(1, false) t(2) else t(3); (r, *log)", (3, 13)))
@@ -658,10 +696,102 @@ def fam_fold(tier, seed, extra=()):
     return out
 
 
+TWIN_TEMPLATES = [
+    # (name, statements using constants A, B, C (ints) ; result expression)
+    ("arith", "x := A + B * C; y := x - A; (x, y, x / C, x % C)"),
+    ("propagate", "x := A; y := x + B; z := y * y; w := z; (w, w == z, w > x)"),
+    ("shadow", "x := A; x := x + 1; { x := x * 2; }; x"),
+    ("block_value", "x := { t := A; t + B }; x * C"),
+    ("if_const", "x := if A < B { A } else { B }; y := if A == A { 1 } else { 2 }; (x, y)"),
+    ("if_prune_effect", "c := mut 0; if A < B { c += 1 } else { c += 10 }; if B < A { c += 100 }; *c"),
+    ("and_or", "p := A < B && B < C; q := A > B || C > B; r := A > B && (1 / (A - A)) == 0; (p, q, r)"),
+    ("short_circuit_effect", "c := mut 0; bump := () -> bool { c += 1; return true }; r := (A > B && bump()) || (A < B && bump()); (r, *c)"),
+    ("index", "arr := [A, B, C]; (arr[0], arr[2 - 3], arr[1] + arr[0])"),
+    ("index_expr", "[A, B, C][(A - A) + 1]"),
+    ("tuple", "t := (A, B, C); (t.0 + t.2, t.1)"),
+    ("destruct", "(p, q) := (A, B + C); p * q"),
+    ("repeat", "r := [A; 3]; (r, r[1] + B)"),
+    ("string_index", "s := \"héllo\"; (s[1], s[0 - 1])"),
+    ("slice", "[A, B, C, A, B][1:4:2]"),
+    ("while_const", "i := mut 0; while *i < A - A + 3 { i += 1 }; *i"),
+    ("while_false", "c := mut 7; while A > A { c += 1 }; *c"),
+    ("loop_break", "i := mut A; n := mut 0; loop { if *i >= A + 3 { break } i += 1; n += 1 }; *n"),
+    ("mut_effects", "c := mut A; c += B; c *= C; d := c; d -= 1; (*c, *d)"),
+    ("mut_order", "log := mut 0; t := (k: int) -> int { log = *log * 10 + k; return k }; r := t(1) + A * t(2) - t(3); (r, *log)"),
+    ("closure_capture", "k := A; f := (x: int) -> int { return x + k }; k := B; (f(1), k)"),
+    ("closure_mut", "c := mut A; f := () -> int { c += 1; return *c }; (f(), f(), *c)"),
+    ("fn_const_args", "f := (x: int, y: int) -> int { return x * y + x }; (f(A, B), f(B, C))"),
+    ("recursion", "fact := (n: int) -> int { if n < 2 { return 1 } return n * fact(n - 1) }; fact(A - A + 5)"),
+    ("match_type", "v := if A < B { A } else { 2.5 }; match v { x: int => x + 1, => 0, }"),
+    ("match_value", "match A + B { (A + B) => 1, => 2, }"),
+    ("shift", "(A << 3, (0 - A) >> 1, B << 62, C >> 63)"),
+    ("bits", "(A & B, A | C, B ^ C, !A)"),
+    ("compare", "(A < B, A <= A, B > C, C >= C, A == B, A != B)"),
+    ("neg", "(-A, -(A - B), -(-C))"),
+    ("eq_arrays", "x := [A, B]; y := [A] + [B]; (x == y, x != y, [A; 0] == [])"),
+    ("nested_fn", "f := (x: int) -> int { g := (y: int) -> int { return y * A }; return g(x) + B }; f(C)"),
+    ("for_sum", "s := mut 0; for x in [A, B, C]~ { s += x }; *s"),
+    ("collect", "[A, B, C]~ @ (x: int) -> int { return x * 2 } $]"),
+    ("div_zero_late", "c := mut 0; f := (x: int) -> int { c += 1; return x / (A - A) }; r := if A > A { f(1) } else { 5 }; (r, *c)"),
+    ("div_zero_hit", "f := (x: int) -> int { return x / (A - A) }; f(B)"),
+    ("mod_zero_hit", "f := (x: int) -> int { return x % (B - B) }; f(A)"),
+    ("shift_over_hit", "f := (x: int) -> int { return x << (A - A + 64) }; f(1)"),
+    ("index_oob_hit", "f := (i: int) -> int { return [A, B][i] }; f(2)"),
+    ("neglen_hit", "f := (x: int) -> [int] { return [x; A - A - 1] }; f(1)"),
+    ("error_order", "f := (x: int) -> int { return ([A][x]) + (B / (A - A)) }; f(5)"),
+    ("float_ops", "x := 1.5; y := x * 2.0 - 0.25; (y, y / 0.0, y > x, -y)"),
+    ("struct", "s := struct{a := A, b := B + C}; (s.a, s.b)"),
+]
+
+
+def fam_twins(tier, seed, extra=()):
+    """C04: a program with literal constants vs the same program with the constants hidden from the
+    optimizer (passed as function arguments): same value / same run-time error; the literal side may
+    report a constant operation that fails whenever evaluated at parse time"""
+    out = []
+    vals = [(3, 7, 2), (0, 1, 5), (-4, 63, 9), (MAX, 2, 1), (5, 5, 5)]
+    if tier == "thorough":
+        rnd = random.Random(seed + 5)
+        vals += [(rnd.randint(-50, 50), rnd.randint(-50, 50), rnd.choice([1, 2, 3, 7, -3])) for _ in range(12)]
+    for name, body in TWIN_TEMPLATES:
+        *stmts, res = [x.strip() for x in split_top(body)]
+        for vi, (a, b, c) in enumerate(vals):
+            def lit(v):
+                return f"({v})" if v >= 0 else f"(0 - {-v})"
+            sub = lambda t, A, B, C: re.sub(r"\b([ABC])\b", lambda m: {"A": A, "B": B, "C": C}[m.group(1)], t)
+            lit_prog = sub("; ".join(stmts + [res]), lit(a), lit(b), lit(c))
+            hid_body = sub("; ".join(stmts + ["return " + res]), "ca", "cb", "cc")
+            hid_prog = f"hidden := (ca: int, cb: int, cc: int) -> any {{ {hid_body} }}; hidden(va, vb, vc)"
+            hid = Case(f"twin/{name}/{vi}/hidden", hid_prog, None, {"va": a, "vb": b, "vc": c}, mode="std")
+            # the hidden side still sees va, vb, vc as interpreter constants at the call site only
+            out.append(hid)
+            out.append(Case(f"twin/{name}/{vi}/literal", lit_prog, Twin(hid.id), mode="std",
+                            what=f"{name} with A={a} B={b} C={c}"))
+    return out
+
+
+def split_top(body):
+    """split `a; b; c` at top-level semicolons"""
+    parts, depth, cur = [], 0, []
+    for ch in body:
+        if ch in "([{":
+            depth += 1
+        elif ch in ")]}":
+            depth -= 1
+        if ch == ";" and depth == 0:
+            parts.append("".join(cur))
+            cur = []
+        else:
+            cur.append(ch)
+    if "".join(cur).strip():
+        parts.append("".join(cur))
+    return parts
+
+
 FAMILIES = {
     "unary:-": fam_unary, "bitwise": fam_bitwise, "compare": fam_compare, "float": fam_float, "eq": fam_eq,
     "eq_array": fam_eq_array, "index": fam_index, "slice": fam_slice, "order": fam_order, "control": fam_control,
-    "fold": fam_fold, "logic": fam_fold_logic,
+    "fold": fam_fold, "logic": fam_fold_logic, "twins": fam_twins,
 }
 
 
